@@ -35,3 +35,35 @@ for prop, spec in sweeps.SWEEPS.items():
     json.dump({"property": prop, "sweep": {k: spec[k] for k in ("seed", "n_quick", "n_thorough", "extra")},
                "summary": summary, "classes": classes, "instances": inst}, open(path, "w"), indent=1)
     print(prop, len(inst), classes, summary)
+
+
+def gen_class(seed, k):
+    out = subprocess.run([binp, "e2e", "flaggen-spec", "--seed", str(seed), "--k", str(k)], capture_output=True, text=True, timeout=60).stdout
+    if "GPOS features" in out:
+        return "generated_pair_fonts"
+    for line in out.splitlines():
+        m = re.search(r"Multiple \{.*sequences: (.*)", line)
+        if m and re.search(r"\[\]", m.group(1)):
+            return "generated_context_fonts_with_deleting_multiple"
+    return "generated_context_fonts_other"
+
+
+for prop, g in sweeps.GEN.items():
+    out = subprocess.run([binp, "e2e", g["cmd"], "--seed", str(g["seed"]), "--n", str(g["n_thorough"])] + g["extra"],
+                         env=dict(env, RBV_DUMP_DIR="/tmp/collect_known_dump"), capture_output=True, text=True, timeout=3600).stdout
+    inst = []
+    for line in out.splitlines():
+        m = re.match(r"^fail (C\d+) (\S+) font=(\S+) req=\[(.*?)\] ?(.*)$", line)
+        if m:
+            name = os.path.basename(m.group(3))
+            mm = re.match(r"flaggen-(\d+)-(\d+)\.ttf", name)
+            f = {"kind": m.group(2), "font": name, "req": m.group(4), "class": gen_class(int(mm.group(1)), int(mm.group(2)))}
+            inst.append(f)
+    classes = {}
+    for f in inst:
+        classes[f["class"]] = classes.get(f["class"], 0) + 1
+    summary = [l for l in out.splitlines() if l.startswith("summary")]
+    path = os.path.join(HERE, "corpus", "%s-known-gen-instances.json" % prop)
+    json.dump({"property": prop, "sweep": g, "summary": summary, "classes": classes, "instances": inst}, open(path, "w"), indent=1)
+    print(prop, "generated fonts:", len(inst), classes, summary)
+subprocess.run(["rm", "-rf", "/tmp/collect_known_dump"])
